@@ -368,7 +368,16 @@ func c19Dev(s *sim.Sim, p *sim.Params) {
 		req := httptest.NewRequest("GET", "/__livereload", nil).WithContext(ctx)
 		req.RemoteAddr = "10.0.0.7:7"
 		tabs = append(tabs, cancel)
-		s.Spawn("tab", func() { s.HTTPDo(addr, req) })
+		// half of the tabs behave like a browser: on the reload notification the page reloads,
+		// which drops this stream at once (a new tab connects to the new server)
+		browser := s.Choose(sim.SWork, 2) == 0
+		s.Spawn("tab", func() {
+			s.HTTPDoWatch(addr, req, func(chunk []byte) {
+				if browser && strings.Contains(string(chunk), "reload") {
+					cancel()
+				}
+			})
+		})
 		s.Fault("request-in-flight-across-reload")
 		logf("a browser tab opens the live-reload stream")
 	}
